@@ -673,6 +673,8 @@ func useRenewWithPH(w *chain.World, fce types.V2FileContractElement, f types.Sia
 }
 
 func run(c *vf.Ctx) {
+	c.FullScope = true // the whole stated space takes about a minute: both tiers run it
+	c.Set("scope_note", "quick and thorough tiers run the same (full) scope")
 	c.Set("rule", "for every network configuration (maturity delay 0..3 (thorough 0..5) x allow/require placements (quick 2, thorough 9), v1-only variants) and every rule of the boundary table: the otherwise-valid transaction is probed in a block at EVERY height of a window covering bound-2..bound+1 (timestamps irregular; after(t) probed with t = median-1s, median, median+1s at every height); oracle: accepted iff the independent rule predicate holds (both directions); states = (network, rule, creation height, bound) tuples, transitions = ValidateBlock probes")
 	keys := chain.NewKeys(c.Seed)
 	ns := nets(c)
